@@ -90,7 +90,7 @@ class C13(Prop):
         ("lib/python/pyflyby/_log.py", "_PyflybyHandler.HookCtx"),
     ]
     parallel = False
-    quick_cases = 420
+    quick_cases = 1500
     thorough_cases = 5000
     quick_deadline_s = 70
     thorough_deadline_s = 780
@@ -194,8 +194,8 @@ class C13(Prop):
         for k, r in zip(keys, pf):
             pre = [c.get("auto_imported", []) for c in r.get("cells", [])] if "lab_error" not in r else []
             refjobs.append(self._job(todo[k], False, pre))
-        # the pyflyby-free run uses the plain terminal shell whatever the configuration of the pyflyby run
-        ref = self.lab.run("terminal", [dict(j, config="terminal") for j in refjobs])
+        # the pyflyby-free run: same shell configuration, pyflyby never enabled
+        ref = self.lab.run_mixed(refjobs)
         for k, a, b in zip(keys, pf, ref):
             self._cache[k] = dict(pf=a, ref=b)
         if self._variant is None:
